@@ -420,6 +420,17 @@ func TestOrEachBranch(t *testing.T) {
 						}
 						cs := ctxSpec{Seed: uint64(i), BindPID: true, PID: 1}
 						proveAndCheck(t, in, cn, cs, uint64(i), sp.String())
+						if strings.HasPrefix(in.Shape(), "or") {
+							// no witness at all: a transcript of simulated branches only must not verify under another challenge
+							n := in.ChallengeLen()
+							eSim, e := make([]byte, n), make([]byte, n)
+							eSim[0], e[n-1] = byte(i), byte(b+1)
+							if accepted, err := in.SimulateUnder(uint64(i), eSim, e); err != nil {
+								t.Fatalf("HVZK: %v: simulator: %v", sp, err)
+							} else if accepted {
+								t.Fatalf("OR: %v: a transcript whose branches were ALL simulated (branch challenges XOR to %x) was ACCEPTED under the challenge %x", sp, eSim, e)
+							}
+						}
 						vlib.Case(test, vlib.Desc(in.Shape(), g, cn), true, "shape="+in.Shape(), "compiler="+string(cn))
 					}
 				}
